@@ -19,6 +19,14 @@ def correspond(res, tier, seed):
     if not binp:
         raise RuntimeError('harness build failed:\n' + out[-3000:])
     path, rc, out = core.run_harness(binp, 'TestVerifC13', tier, seed, pkg='driver', timeout=900)
+    crash = core.crash_summary(out) if rc != 0 else None
+    if crash:
+        # a goroutine of the service panicked while forwarding: the process is gone and with it every later reading
+        head, frames, trace = crash
+        res.evaluations += 1
+        res.violation('forward:crash:' + (frames[0] if frames else head), 'the device service died (%s in %s) while forwarding the frames of seed %s: every reading after that point is lost'
+                      % (head, ' <- '.join(frames) or '?', seed), 'history', True, case=['TestVerifC13 seed=%s tier=%s' % (seed, tier)], expected=['every frame forwarded once'], observed=[trace])
+        return
     if rc != 0:
         raise RuntimeError('harness run failed rc=%d:\n%s' % (rc, out[-3000:]))
     reqs, obs = core.read_cases(path)
